@@ -17,6 +17,7 @@
 #include "common.h"
 #include <sys/uio.h>
 #include "convert.h"
+#include "array.h"
 
 typedef ssize_t (*enc_fn)(MPT_STRUCT(encode_state) *, const struct iovec *, const struct iovec *);
 typedef int (*dec_fn)(MPT_STRUCT(decode_state) *, const struct iovec *, size_t);
@@ -58,12 +59,27 @@ static size_t next_inc(const char *sched, int *pos)
 	(*pos)++;
 	return strtoul(s, 0, 10);
 }
+/* the real mpt_array_push on an encode_array; afterwards the window variables mirror the array so
+ * that the other operations (msg) see the same state */
+static MPT_STRUCT(encode_array) arr;
+static void mirror_array(void)
+{
+	MPT_STRUCT(buffer) *b = arr._d._buf;
+	size_t used = b ? b->_used : 0;
+	st = arr._state;
+	free(win);
+	cap = b ? b->_size : 0;
+	win = malloc(cap ? cap : 1);
+	if (used) memcpy(win, b + 1, used > cap ? cap : used);
+}
 static void run_case(int ntok, char **tok)
 {
 	int v = vh_int(tok[1]);
 	int t = 2;
 	enc_fn enc = encs[v];
 	memset(&st, 0, sizeof(st));
+	memset(&arr, 0, sizeof(arr));
+	arr._enc = enc;
 	win = 0; cap = 0;
 	while (t < ntok) {
 		const char *op = tok[t++];
@@ -107,6 +123,18 @@ static void run_case(int ntok, char **tok)
 			}
 			if (rc < 0) vh_tok("P:%zd", rc);
 			else vh_tok("P:%zu", off);
+			show_state();
+			vh_add("|%zu", cap);
+			free(d);
+		}
+		else if (!strcmp(op, "apush") || !strcmp(op, "aterm")) {
+			size_t n = 0;
+			uint8_t *d = 0;
+			ssize_t rc;
+			if (op[1] == 'p') d = vh_unhex(tok[t++], &n);
+			rc = mpt_array_push(&arr, n, d);
+			mirror_array();
+			vh_tok("P:%zd", rc);
 			show_state();
 			vh_add("|%zu", cap);
 			free(d);
@@ -166,5 +194,6 @@ static void run_case(int ntok, char **tok)
 		else { vh_tok("?%s", op); break; }
 	}
 	free(win);
+	if (arr._d._buf) arr._d._buf->_vptr->unref(arr._d._buf);
 }
 int main(int argc, char **argv) { return vh_main(argc, argv, run_case); }
